@@ -431,6 +431,7 @@ pub struct ProcMeta {
     pub fs_faults_fired: BTreeMap<&'static str, u64>,
     pub short_writes: u64,
     pub short_reads: u64,
+    pub eintrs: u64,
     pub unmodelled: Vec<String>,
     pub fs_ops: u64,
 }
@@ -575,6 +576,7 @@ pub fn run_fx_process(plan: FxPlan) -> FxObs {
         fs_faults_fired: out.fs_faults_fired,
         short_writes: out.short_writes,
         short_reads: out.short_reads,
+        eintrs: out.eintrs,
         unmodelled: out.unmodelled,
         fs_ops: out.fs_ops,
     };
